@@ -18,6 +18,8 @@ CONSTANTS
   CachePutFails = TRUE
   CrashInCreate = TRUE
   IssuerEntries = {}
+  MaxTampers = 0
+  VerifyEdge = TRUE
   Stops = FALSE
 INVARIANTS LockAppendOnly AckPublished AckInLock SameAck LeafCount PubBacked Recoverable
 PROPERTIES LockStepExtends OutcomeIsFinal
